@@ -114,7 +114,7 @@ Outputs(p) == {v.n : v \in {w \in VarsOf(p) : w.cls = "VAR_OUTPUT"}}
 InOuts(p) == {v.n : v \in {w \in VarsOf(p) : w.cls = "VAR_IN_OUT"}}
 \* what may stand left of := in a formal invocation: inputs and in-out variables (an in-out variable is bound with :=, never with =>)
 NamedFormals(p) == Inputs(p) \cup InOuts(p)
-Globals(u) == Range(u.config.globals) \cup Range(u.config.rglobals)
+Globals(u) == Range(u.config.globals) \cup Range(u.config.rglobals) \cup Range(u.config2.globals) \cup Range(u.config2.rglobals)
 AllVars(u) == UNION {VarsOf(p) : p \in Range(u.pous)} \cup Globals(u)
 Literals == {"TRUE", "FALSE"}
 
@@ -296,7 +296,9 @@ GrowInOut == "io1" \notin VarNames(unit.pous[1]) /\
                                               C(NoWrap, "inst", <<<<"io1", "a">>>>, <<>>, <<>>)))
 GrowEmptyCall == Edit(<<"grow:emptycall">>, AddStmtTo(unit, 2, C(NoWrap, "inst", <<>>, <<>>, <<>>)))
 GrowConfig2 == unit.config2.n = "-" /\
-               Edit(<<"grow:config2">>, [unit EXCEPT !.config2 = [n |-> "CFG2", globals |-> <<>>, rglobals |-> <<>>, tasks |-> <<"T9">>,
+               \* ... with a global gk of its own that is NOT constant (the gk of CFG is): an external declaration of gk still
+               \* has to be constant, whichever configuration is looked at first
+               Edit(<<"grow:config2">>, [unit EXCEPT !.config2 = [n |-> "CFG2", globals |-> <<V("gk", "VAR_GLOBAL", "-", "INT", <<"int", "2">>)>>, rglobals |-> <<>>, tasks |-> <<"T9">>,
                                                                   progs |-> <<[n |-> "J1", task |-> "T9", ty |-> "MAIN"]>>]])
 \* a data type that has the name of a standard function block the compiler does not implement: declaring it is fine
 GrowStdNamedType == "TON" \notin TypeNames(unit) /\
@@ -423,6 +425,10 @@ PlantConstNoInit ==
 PlantConstFB == \E i \in PouIdx(unit) \ {1} : "nf" \notin VarNames(unit.pous[i]) /\
                  Edit(<<"plant:ConstNotFB", unit.pous[i].n>>, AddVarTo(unit, i, V("nf", "VAR", "CONSTANT", "CALLEE", NoInit)))
 PlantExternNotConst ==
+  \* the global of the RESOURCE becomes constant (MAIN's external declaration of it is not)
+  \* (only while it is the only global of the resource: the resource has ONE block of globals, with one qualifier)
+  \/ (Len(unit.config.rglobals) = 1 /\
+        Edit(<<"plant:ExternOfConstIsConst", "CFG", "gv">>, [unit EXCEPT !.config.rglobals[1].q = "CONSTANT"]))
   \/ Edit(<<"plant:ExternOfConstIsConst", "MAIN", "gk">>, SetVar(unit, 4, 1, [unit.pous[4].vars[1] EXCEPT !.q = "-"]))
   \/ \E i \in {1, 2} : Edit(<<"plant:ExternOfConstIsConst", unit.pous[i].n, "new">>, AddVarTo(unit, i, V("gk", "VAR_EXTERNAL", "-", "INT", NoInit)))
 
@@ -480,7 +486,7 @@ LabelTargets(e) ==
     [] e[1] = "plant:TaskDefined"           -> {e[3], e[2]}
     [] e[1] = "plant:ConstInitialised"      -> {"nc", "k"}
     [] e[1] = "plant:ConstNotFB"            -> {"nf", "CALLEE"}
-    [] e[1] = "plant:ExternOfConstIsConst"  -> {"gk"}
+    [] e[1] = "plant:ExternOfConstIsConst"  -> {"gk", "gv"}
     [] OTHER                                -> {}
 Replay == [R |-> "unit", unit |-> unit, edits |-> edits, violated |-> Violated(unit),
            codes |-> [r \in Violated(unit) |-> Code(r)],
